@@ -48,7 +48,7 @@ theorem eval_congr (A : List Env) (t : IR) :
   induction t
   case ref x => intro ρ ρ' _ h; simpa [eval] using h x (by simp [fv])
   case i32 | i64 | f32 | f64 | str | bool | na | anil | snil | tnil => intros; simp [eval]
-  case cast | isNA | un | arrayLen | toArray | toStream | getField | getTupleElement | toSet | toDict =>
+  case cast | ascribe | isNA | un | arrayLen | toArray | toStream | getField | getTupleElement | toSet | toDict =>
     rename_i ih
     intro ρ ρ' ha h
     simp only [eval]
@@ -138,7 +138,7 @@ theorem subst_of_not_free (x : Name) (v : IR) (t : IR) : x ∉ fv t → subst x 
   case ref y => intro h; simp [fv] at h; simp [subst, Ne.symm h]
   case i32 | i64 | f32 | f64 | str | bool | na | anil | snil | tnil => intros; simp [subst]
   case streamAgg | aggLet | aggFilter | agg => intros; simp [subst]
-  case cast | isNA | un | arrayLen | toArray | toStream | getField | getTupleElement | toSet | toDict =>
+  case cast | ascribe | isNA | un | arrayLen | toArray | toStream | getField | getTupleElement | toSet | toDict =>
     rename_i ih; intro h; simp only [fv] at h; simp [subst, ih h]
   case bin | cmp | acons | arrayRef | scons | insertField | tcons | dictGet =>
     rename_i iha ihb; intro h; simp only [fv, List.mem_append, not_or] at h; simp [subst, iha h.1, ihb h.2]
@@ -236,7 +236,7 @@ theorem eval_subst (A : List Env) (x : Name) (v : IR) (hav : aggFree v = true) (
       simp [subst, h, eval, lookup_cons, h']
   case i32 | i64 | f32 | f64 | str | bool | na | anil | snil | tnil => intros; simp [subst, eval]
   case streamAgg | aggLet | aggFilter | agg => intro _ ha; simp [aggFree] at ha
-  case cast | isNA | un | arrayLen | toArray | toStream | getField | getTupleElement | toSet | toDict =>
+  case cast | ascribe | isNA | un | arrayLen | toArray | toStream | getField | getTupleElement | toSet | toDict =>
     rename_i ih
     intro ρ ha hs
     simp only [subst, eval]
@@ -362,7 +362,7 @@ theorem eval_cseLetFree_inline (t : IR) : cseLetFree t = true → inlineCse t = 
   case aggLet | aggFilter | agg => intros; simp [inlineCse]
   case streamAgg x a q iha _ =>
     intro h; simp only [cseLetFree, Bool.and_eq_true] at h; simp [inlineCse, iha h.1]
-  case cast | isNA | un | arrayLen | toArray | toStream | getField | getTupleElement | toSet | toDict =>
+  case cast | ascribe | isNA | un | arrayLen | toArray | toStream | getField | getTupleElement | toSet | toDict =>
     rename_i ih; intro h; simp only [cseLetFree] at h; simp [inlineCse, ih h]
   case bin | cmp | acons | arrayRef | scons | insertField | tcons | dictGet | streamMap | streamFilter =>
     rename_i iha ihb; intro h; simp only [cseLetFree, Bool.and_eq_true] at h; simp [inlineCse, iha h.1, ihb h.2]
@@ -392,7 +392,7 @@ theorem eval_inlineCse (t : IR) : inlineOk t = true → ∀ ρ A, eval ρ A (inl
   case aggLet | aggFilter | agg => intros; simp [inlineCse]
   case streamAgg x a q iha _ =>
     intro h ρ A; simp only [inlineOk, Bool.and_eq_true] at h; simp [inlineCse, eval, iha h.1]
-  case cast | isNA | un | arrayLen | toArray | toStream | getField | getTupleElement | toSet | toDict =>
+  case cast | ascribe | isNA | un | arrayLen | toArray | toStream | getField | getTupleElement | toSet | toDict =>
     rename_i ih; intro h ρ A; simp only [inlineOk] at h; simp [inlineCse, eval, ih h]
   case bin | cmp | acons | arrayRef | scons | insertField | tcons | dictGet | streamMap | streamFilter =>
     rename_i iha ihb; intro h ρ A; simp only [inlineOk, Bool.and_eq_true] at h; simp [inlineCse, eval, iha h.1, ihb h.2]
@@ -417,6 +417,7 @@ theorem scopeOk_sound (t : IR) : ∀ Γ Δ, scopeOk Γ Δ t = true → WellScope
   case snil => intros; exact .snil
   case tnil => intros; exact .tnil
   case cast ih => intro Γ Δ h; exact .cast (ih Γ Δ (by simpa [scopeOk] using h))
+  case ascribe ih => intro Γ Δ h; exact .ascribe (ih Γ Δ (by simpa [scopeOk] using h))
   case isNA ih => intro Γ Δ h; exact .isNA (ih Γ Δ (by simpa [scopeOk] using h))
   case un ih => intro Γ Δ h; exact .un (ih Γ Δ (by simpa [scopeOk] using h))
   case arrayLen ih => intro Γ Δ h; exact .arrayLen (ih Γ Δ (by simpa [scopeOk] using h))
@@ -480,7 +481,7 @@ theorem fv_subset_of_wellScoped {Γ Δ t} (h : WellScoped Γ Δ t) : aggFree t =
     simp only [aggFree, Bool.and_eq_true, Bool.false_eq_true] at ha <;>
     simp only [fv, List.mem_append, mem_remove, List.mem_singleton, List.not_mem_nil] at hy
   case ref hx => exact hy ▸ hx
-  case cast ih | isNA ih | un ih | arrayLen ih | toArray ih | toStream ih | getField ih | getTupleElement ih | toSet ih
+  case cast ih | ascribe ih | isNA ih | un ih | arrayLen ih | toArray ih | toStream ih | getField ih | getTupleElement ih | toSet ih
     | toDict ih => exact ih ha y hy
   case bin iha ihb | cmp iha ihb | acons iha ihb | arrayRef iha ihb | scons iha ihb | insertField iha ihb | tcons iha ihb
     | dictGet iha ihb =>
